@@ -140,6 +140,38 @@ def init (id : Ident) (len : Nat) : M Ident :=
 /-- `strlen` of a buffer the caller terminated -/
 def strlen (b : List Byte) : Nat := (b.takeWhile (· != 0)).length
 
+/-- `(id->_len > id->_max) ? id->_base : 0`: the allocation the identifier holds -/
+def oldAlloc (id : Ident) : M Ptr :=
+  if id.len > id.max then getBase id.area else pure .null
+
+/-- `mpt_identifier_set`, "length exceeds reserved size": `data` (the name and its terminator, or zeros) goes to a
+    new block, the old allocation is freed, the value area is cleared and `_base` set -/
+def setExt (id : Ident) (h : Heap) (who : Nat) (data : List Byte) (charset : Nat) : M (Ident × Heap × Bool) := do
+  let (h1, t) := h.alloc data who
+  -- clear old allocation
+  let old ← oldAlloc id
+  let h2 ← freePtr h1 old who
+  -- set new name content address
+  let a1 ← wr id.area 0 (zeros id.max)
+  let a2 ← setBase a1 (.tok t)
+  pure ({ id with len := data.length, charset := charset, area := a2 }, h2, true)
+
+/-- `mpt_identifier_set`, "local data sufficient" (the value area part is `inlArea`): `src` = the `len` cells copied to `_val` (name bytes or zeros),
+    the rest of the value area up to `_max` is cleared, then the old allocation is freed -/
+def inlArea (area : List Cell) (mx : Nat) (src : List Cell) : M (List Cell) :=
+  if src.length ≠ 0 then do
+    -- `memcpy(_val, name, len)` (or `memset`), then `if (post) memset(_val + len, 0, post)`
+    let a ← wr area 0 src
+    if mx - src.length ≠ 0 then wr a src.length (zeros (mx - src.length)) else pure a
+  else wr area 0 (zeros mx)
+
+def setInl (id : Ident) (h : Heap) (who : Nat) (src : List Cell) (nlen charset : Nat) : M (Ident × Heap × Bool) := do
+  let addr ← oldAlloc id
+  let a1 ← inlArea id.area id.max src
+  -- clear potential old allocation
+  let h1 ← freePtr h addr who
+  pure ({ id with len := nlen, charset := charset, area := a1 }, h1, true)
+
 /-- `mpt_identifier_set(id, name, len)`; `name = none` is the zero pointer; the flag is "result not NULL".
     The caller's buffer holds `name` followed by a terminating zero. -/
 def set (id : Ident) (h : Heap) (who : Nat) (name : Option (List Byte)) (len : Int) : M (Ident × Heap × Bool) :=
@@ -153,34 +185,32 @@ def set (id : Ident) (h : Heap) (who : Nat) (name : Option (List Byte)) (len : I
   else
     let len := len.toNat
     let nlen := nlen.toNat
-    if nlen > id.max then do
-      -- length exceeds reserved size: copy name content to a new block
-      let data ← match name with
-        | some b => if len ≤ b.length then pure (b.take len ++ [0]) else throw .oob
-        | none => pure (List.replicate nlen 0)
-      let (h1, t) := h.alloc data who
-      -- clear old allocation
-      let h2 ← if id.len > id.max then do
-          let p ← getBase id.area
-          freePtr h1 p who
-        else pure h1
-      -- set new name content address
-      let a1 ← wr id.area 0 (zeros id.max)
-      let a2 ← setBase a1 (.tok t)
-      pure ({ id with len := nlen, charset := charset, area := a2 }, h2, true)
-    else do
-      -- local data sufficient
-      let addr ← if id.len > id.max then getBase id.area else pure .null
-      let a1 ← if len ≠ 0 then do
-          let src ← match name with
-            | some b => if len ≤ b.length then pure (bytesC (b.take len)) else throw .oob
-            | none => pure (zeros len)
-          let a ← wr id.area 0 src
-          if id.max - len ≠ 0 then wr a len (zeros (id.max - len)) else pure a
-        else wr id.area 0 (zeros id.max)
-      -- clear potential old allocation
-      let h1 ← freePtr h addr who
-      pure ({ id with len := nlen, charset := charset, area := a1 }, h1, true)
+    if nlen > id.max then
+      -- length exceeds reserved size: copy name content
+      match name with
+      | some b => if len ≤ b.length then setExt id h who (b.take len ++ [0]) charset else throw .oob
+      | none => setExt id h who (List.replicate nlen 0) charset
+    else
+      match name with
+      | some b => if len ≤ b.length then setInl id h who (bytesC (b.take len)) nlen charset else throw .oob
+      | none => setInl id h who (zeros len) nlen charset
+
+/-- `mpt_identifier_copy`, content fits the value area: the old allocation is saved, the bytes are copied over
+    `_val` (and over `_base` beyond four of them), then the old allocation is freed -/
+def copyInl (id : Ident) (h : Heap) (who : Nat) (base : List Byte) (charset : Nat) : M (Ident × Heap × Bool) := do
+  let old ← oldAlloc id
+  let a ← wr id.area 0 (bytesC base)
+  let h1 ← freePtr h old who
+  pure ({ id with len := base.length, charset := charset, area := a }, h1, true)
+
+/-- `mpt_identifier_copy`, content needs a block -/
+def copyExt (id : Ident) (h : Heap) (who : Nat) (base : List Byte) (charset : Nat) : M (Ident × Heap × Bool) := do
+  let (h1, t) := h.alloc base who
+  let old ← oldAlloc id
+  let h2 ← freePtr h1 old who
+  let a1 ← wr id.area 0 (zeros 4)
+  let a2 ← setBase a1 (.tok t)
+  pure ({ id with len := base.length, charset := charset, area := a2 }, h2, true)
 
 /-- `mpt_identifier_copy(id, from)`; `from = none` is the zero pointer, `same` says `id == from` -/
 def copy (id : Ident) (src : Option Ident) (same : Bool) (h : Heap) (who : Nat) : M (Ident × Heap × Bool) :=
@@ -188,30 +218,18 @@ def copy (id : Ident) (src : Option Ident) (same : Bool) (h : Heap) (who : Nat) 
   | none => set id h who none 0
   | some from_ =>
     if same then do
-      if id.len > id.max then
-        let p ← getBase id.area
-        pure (id, h, p != .null)
-      else pure (id, h, true)
+      let p ← oldAlloc id
+      pure (id, h, if id.len > id.max then p != .null else true)
     else do
-      let n := from_.len
-      let base ← readData from_ h n
-      if n ≤ id.max then do
-        -- local data overlays base pointer, save old allocation before copy
-        let old ← if id.len > id.max then getBase id.area else pure .null
-        let a ← wr id.area 0 (bytesC base)
-        let h1 ← freePtr h old who
-        pure ({ id with len := n, charset := from_.charset, area := a }, h1, true)
-      else do
-        let (h1, t) := h.alloc base who
-        let old ← if id.len > id.max then getBase id.area else pure .null
-        let h2 ← freePtr h1 old who
-        let a1 ← wr id.area 0 (zeros 4)
-        let a2 ← setBase a1 (.tok t)
-        pure ({ id with len := n, charset := from_.charset, area := a2 }, h2, true)
+      let base ← readData from_ h from_.len
+      if from_.len ≤ id.max then copyInl id h who base from_.charset
+      else copyExt id h who base from_.charset
 
-/-- first index `i < n` where the two byte lists differ -/
-def firstDiff (a b : List Byte) (n : Nat) : Option Nat :=
-  (List.range n).find? fun i => a[i]? != b[i]?
+/-- the comparison loops: first index `i` with `i < n` (counted from `i0`) where the two byte lists differ -/
+def firstDiffGo : List Byte → List Byte → Nat → Nat → Option Nat
+  | _, _, _, 0 => none
+  | a, b, i, n + 1 => if a.head? != b.head? then some i else firstDiffGo a.tail b.tail (i + 1) n
+def firstDiff (a b : List Byte) (n : Nat) : Option Nat := firstDiffGo a b 0 n
 
 /-- `mpt_identifier_compare(id, name, nlen)` -/
 def compare (id : Ident) (h : Heap) (name : Option (List Byte)) (nlen : Int) : M Int :=
@@ -250,7 +268,7 @@ def inequal (a b : Ident) (h : Heap) : M Int :=
 /-- `_identifier_fini` of the type traits -/
 def fini (id : Ident) (h : Heap) (who : Nat) : M (Ident × Heap) :=
   if id.len > id.max then do
-    let p ← getBase id.area
+    let p ← oldAlloc id
     let h1 ← freePtr h p who
     let a ← wr id.area 0 (zeros id.max)
     pure ({ id with area := a }, h1)
@@ -293,5 +311,91 @@ def create (size : Nat) : M Ident := init (rawStorage size) size
 def view (id : Ident) (h : Heap) : M (Nat × List Byte) := do
   let d ← readData id h id.len
   pure (id.charset, d)
+
+
+/- ---------- a system of identifiers sharing one heap (what the driver and the histories run on) ---------- -/
+
+/-- slots of identifiers (dead slots are `none`; slot number = owner tag of its allocations) and the heap -/
+structure Sys where
+  ids : List (Option Ident)
+  heap : Heap
+  deriving Repr, Inhabited
+
+def Sys.empty : Sys := ⟨[], ⟨[]⟩⟩
+
+def Sys.get (s : Sys) (k : Nat) : Option Ident := (s.ids[k]?).getD none
+
+/-- live blocks owned by slot `k` -/
+def Sys.owned (s : Sys) (k : Nat) : Nat := (s.heap.blocks.filter fun b => b.live && b.owner == k).length
+
+inductive Op where
+  | new (size : Nat)                                    -- storage of `size` bytes + mpt_identifier_init
+  | set (k : Nat) (name : Option (List Byte)) (len : Int)   -- the caller's buffer is `name` followed by a zero byte
+  | copy (k : Nat) (j : Option Nat)
+  | free (k : Nat)                                      -- mpt_identifier_set(id, 0, 0), then the storage is released
+  | tinit (j : Option Nat)                              -- traits init into raw 16-byte storage (new slot)
+  | tfini (k : Nat)                                     -- traits fini, then the storage is released
+  deriving Repr, Inhabited
+
+/-- result of an operation: the pointer/code verdict, or the number of blocks left behind at end of life -/
+inductive OpRes where
+  | done (ok : Bool)
+  | ended (leaked : Nat)
+  | invalid                                             -- operand names no live identifier: nothing happens
+  deriving DecidableEq, Repr, Inhabited
+
+def Sys.step (s : Sys) (op : Op) : M (Sys × OpRes) :=
+  match op with
+  | .new size => do
+    let id ← create size
+    pure ({ s with ids := s.ids ++ [some id] }, .done true)
+  | .set k name len =>
+    match s.get k with
+    | none => pure (s, .invalid)
+    | some id => do
+      let (id', h', ok) ← set id s.heap k (name.map (· ++ [0])) len
+      pure ({ ids := s.ids.set k (some id'), heap := h' }, .done ok)
+  | .copy k j =>
+    match s.get k, j with
+    | none, _ => pure (s, .invalid)
+    | some id, none => do
+      let (id', h', ok) ← copy id none false s.heap k
+      pure ({ ids := s.ids.set k (some id'), heap := h' }, .done ok)
+    | some id, some j =>
+      match s.get j with
+      | none => pure (s, .invalid)
+      | some src => do
+        let (id', h', ok) ← copy id (some src) (j == k) s.heap k
+        pure ({ ids := s.ids.set k (some id'), heap := h' }, .done ok)
+  | .free k =>
+    match s.get k with
+    | none => pure (s, .invalid)
+    | some id => do
+      let (_, h', _) ← set id s.heap k none 0
+      let s' : Sys := { ids := s.ids.set k none, heap := h' }
+      pure (s', .ended (s'.owned k))
+  | .tinit j =>
+    let src : Option (Option Ident) := match j with
+      | none => some none
+      | some j => (s.get j).map some
+    match src with
+    | none => pure (s, .invalid)
+    | some src => do
+      let (id', h', r) ← traitsInit src s.heap s.ids.length
+      pure ({ ids := s.ids ++ [some id'], heap := h' }, .done (decide (0 ≤ r)))
+  | .tfini k =>
+    match s.get k with
+    | none => pure (s, .invalid)
+    | some id => do
+      let (_, h') ← fini id s.heap k
+      let s' : Sys := { ids := s.ids.set k none, heap := h' }
+      pure (s', .ended (s'.owned k))
+
+/-- run a history; a fault ends it -/
+def Sys.run (s : Sys) : List Op → M Sys
+  | [] => pure s
+  | op :: rest => do
+    let (s', _) ← s.step op
+    Sys.run s' rest
 
 end Mpt.Ident
